@@ -664,7 +664,8 @@ def local_sort_types(a):
     else:
         types = [tb[n] for n in a["types"]]
     out = C.converter.sort_types(types)
-    prio = [C.__PYTHON_TYPES_SORTED__.get(t, 0) for t in out]
+    # the documented key: table priority, `object` after the other untabled types
+    prio = [2 * C.__PYTHON_TYPES_SORTED__.get(t, 0) + (1 if t is object else 0) for t in out]
     return ok({"sorted": [t.__name__ for t in out], "prio": prio})
 
 
@@ -785,6 +786,91 @@ def local_seqnum(a):
             for x, lab in zip(target.attrs, labels)
         ]
     )
+
+
+def local_seqchain(a):
+    """an inheritance chain (root first): the two preparing handlers on every
+    class, then ResetAttributeSequenceNumbers on the last class only — it has to
+    bring the numbers of its bases in order itself"""
+    from xsdata.codegen.container import ClassContainer
+    from xsdata.codegen.handlers import (
+        CalculateAttributePaths,
+        ResetAttributeSequenceNumbers,
+        ResetAttributeSequences,
+    )
+    from xsdata.codegen.models import Attr, AttrType, Class, Extension, Restrictions, Status
+    from xsdata.models.config import GeneratorConfig
+    from xsdata.models.enums import Tag
+
+    container = ClassContainer(GeneratorConfig())
+    objs = []
+    for n, cls in enumerate(a["chain"]):
+        attrs = []
+        for i, x in enumerate(cls):
+            r = Restrictions(
+                min_occurs=x["min"], max_occurs=x["max"], sequence=x["sequence"], choice=x["choice"],
+                group=x["group"], path=[tuple(p) for p in x["path"]],
+            )
+            attrs.append(
+                Attr(
+                    tag=Tag.ATTRIBUTE if x["skip"] else Tag.ELEMENT,
+                    name=f"a{n}_{i}",
+                    types=[AttrType(qname="{http://www.w3.org/2001/XMLSchema}string", native=True)],
+                    restrictions=r,
+                )
+            )
+        obj = Class(
+            qname=f"C{n}", tag=Tag.COMPLEX_TYPE, location="mem", attrs=attrs, status=Status.FINALIZED,
+            extensions=[Extension(tag=Tag.EXTENSION, type=AttrType(qname=f"C{n - 1}"), restrictions=Restrictions())]
+            if n else [],
+        )
+        container.add(obj)
+        objs.append(obj)
+    for obj in objs:
+        CalculateAttributePaths.process(obj)
+        ResetAttributeSequences().process(obj)
+    if objs:
+        ResetAttributeSequenceNumbers(container).process(objs[-1])
+    out = []
+    for obj in objs:
+        labels = first_seen_labels([x.restrictions.choice for x in obj.attrs])
+        out.append(
+            [[x.restrictions.min_occurs, x.restrictions.max_occurs, x.restrictions.sequence, lab]
+             for x, lab in zip(obj.attrs, labels)]
+        )
+    return ok(out)
+
+
+def impl_seqchain(a):
+    return across_seeds("gen.seqchain", a, local_seqchain)
+
+
+def gen_seqchain(rng, tier):
+    def attr(path):
+        return {"skip": False, "path": [list(p) for p in path], "min": 1, "max": 1, "sequence": None, "choice": None, "group": None}
+
+    s1, s2, s3 = 140000000160, 140000000320, 140000000480
+    two = lambda s: [attr([("s", s, 1, 5)]), attr([("s", s, 1, 5)])]  # noqa: E731
+    yield {"chain": []}
+    yield {"chain": [two(s1)]}
+    yield {"chain": [two(s1), two(s2)]}  # the shape of the former id() leak
+    yield {"chain": [two(s1), [attr([("s", s2, 1, 1)])], two(s3)]}
+    yield {"chain": [two(s2) + two(s1), two(s3)]}
+    for i in range(200 if tier == "quick" else 3000):
+        ids = [140000000000 + 16 * k for k in range(1, 120)]
+        rng.shuffle(ids)
+        chain = [rand_paths(rng, ids) for _ in range(rng.randint(1, 4))]
+        yield {"chain": chain, "_nw": i % 4 != 0}
+        if rng.random() < 0.5:
+            off = rng.randrange(1, 10**6) * 16
+            yield {"chain": [relabel(c, lambda x: x + off) for c in chain], "_nw": True}
+
+
+def classify_seqchain(a, o):
+    if "err" in o:
+        return "err"
+    groups = [len({r[2] for r in c if r[2]}) for c in o["ok"]]
+    return f"classes={len(groups)},numbered={sum(1 for g in groups if g)}"
 
 
 def impl_seqnum(a):
@@ -1145,52 +1231,6 @@ SEQLEAK_SCHEMA = {
 SEQLEAK_OPTIONS = {"compound_fields__enabled": True, "structure_style": "single-package", "package": "gen"}
 
 
-def has_seqleak_pattern(schemas, options):
-    """Finding C12-F1 applies: compound fields are on and some complex type A
-    has a choice with two elements of the same user type B where B derives
-    (transitively) from A, A and B both holding a repeated sequence."""
-    if not options.get("compound_fields__enabled"):
-        return False
-    from lxml import etree
-
-    ns = {"xs": XS}
-    types = {}
-    for text in schemas.values():
-        try:
-            root = etree.fromstring(text.encode())
-        except etree.XMLSyntaxError:
-            return False
-        for ct in root.findall("xs:complexType", ns):
-            types[ct.get("name")] = ct
-
-    def local(q):
-        return q.split(":")[-1] if q else q
-
-    def bases(name, seen=()):
-        ct = types.get(name)
-        if ct is None or name in seen:
-            return []
-        ext = ct.find(".//xs:extension", ns)
-        if ext is None:
-            return []
-        b = local(ext.get("base"))
-        return [b] + bases(b, (*seen, name))
-
-    def repeated_seq(ct):
-        return any(s.get("maxOccurs", "1") not in ("0", "1") for s in ct.iter(f"{{{XS}}}sequence"))
-
-    for name, ct in types.items():
-        for ch in ct.iter(f"{{{XS}}}choice"):
-            seen = {}
-            for el in ch.findall("xs:element", ns):
-                t = local(el.get("type"))
-                seen[t] = seen.get(t, 0) + 1
-            for t, k in seen.items():
-                if k > 1 and name in bases(t) and repeated_seq(ct) and t in types and repeated_seq(types[t]):
-                    return True
-    return False
-
-
 E2E_STYLES = ["clusters", "namespace-clusters"]
 
 
@@ -1282,10 +1322,12 @@ def gen_e2e(rng, tier):
     tries = 0
     while k < n and tries < n * 4:
         tries += 1
-        schemas = make_schema_set(rng)
-        options = e2e_options(rng)
-        if has_seqleak_pattern(schemas, options):
-            continue
+        if k == 0:
+            # a base class that is looked up while it is being finalised (fixed C12-F1)
+            schemas, options = SEQLEAK_SCHEMA, dict(SEQLEAK_OPTIONS, structure_style="clusters")
+        else:
+            schemas = make_schema_set(rng)
+            options = e2e_options(rng)
         seed = rng.randrange(10**6)
         first = S.generate_full("api", schemas, options, seed)
         if "classes" not in first.get("trace", {}):
@@ -1314,6 +1356,7 @@ IMPLS_LOCAL = {
     "gen.layout": local_layout,
     "gen.sort_types": local_sort_types,
     "gen.seqnum": local_seqnum,
+    "gen.seqchain": local_seqchain,
 }
 
 
@@ -1342,6 +1385,9 @@ CORRS = [
     Corr("gen.seqnum", gen_seqnum, impl_seqnum, classify=classify_seqnum,
          nontrivial=lambda a, o: any(x["path"] for x in a["attrs"]),
          describe="CalculateAttributePaths + ResetAttributeSequences + ResetAttributeSequenceNumbers"),
+    Corr("gen.seqchain", gen_seqchain, impl_seqchain, classify=classify_seqchain,
+         nontrivial=lambda a, o: len(a["chain"]) > 1,
+         describe="the three handlers along an inheritance chain; ResetAttributeSequenceNumbers called on the last class only"),
     Corr("gen.process_order", gen_process_order, impl_process_order,
          nontrivial=lambda a, o: len(a["uris"]) > 1,
          describe="cli.generate source order with the glob order forced"),
@@ -1398,8 +1444,6 @@ def check_e2e(a):
 
 
 def covered_e2e(a, msg):
-    if has_seqleak_pattern(a["schemas"], a["options"]) and "sequence" in msg:
-        return "C12-F1"
     o = a["options"]
     if o.get("include_header") and "This file was generated by xsdata" in msg:
         return "C12-F3"
@@ -1523,40 +1567,32 @@ def check_sort_types(a):
     return None
 
 
-def covered_sort_types(a, msg):
-    return "C12-F5" if {"bytes", "object"} <= set(a["types"]) else None
-
-
 def check_seqnum(a):
+    """relabel every id of the class *and* of its base class: same output"""
     ref = local_seqnum(a)
     for off, mul in ((16 * 977, 1), (16 * 31337, 3)):
         b = dict(a)
         b["attrs"] = relabel(a["attrs"], lambda x: mul * x + off)
-        if a.get("base_raw"):
-            b["base"] = [None if s is None else mul * s + off for s in a["base"]]
+        b["base"] = [None if not s else mul * s + off for s in a["base"]]
         got = local_seqnum(b)
         if got != ref:
             return f"sequence numbers depend on id(): {json.dumps(ref)[:160]} vs {json.dumps(got)[:160]}"
     return None
 
 
-def covered_seqnum(a, msg):
-    # the base class' numbers were still raw ids when read (base looked up while being finalised)
-    return "C12-F1" if a.get("base_raw") and any(s and abs(s) > 10**6 for s in a["base"]) else None
-
-
 def gen_oracle_seqnum(rng, tier):
     for a in gen_seqnum(rng, tier):
         yield a
-    a = {
-        "attrs": [
-            {"skip": False, "path": [["s", 140000000160, 1, 5]], "min": 1, "max": 1, "sequence": None, "choice": None, "group": None},
-            {"skip": False, "path": [["s", 140000000160, 1, 5]], "min": 1, "max": 1, "sequence": None, "choice": None, "group": None},
-        ],
-        "base": [140000000320],
-        "base_raw": True,
-    }
-    yield a
+
+
+def check_seqchain(a):
+    ref = local_seqchain(a)
+    for off, mul in ((16 * 977, 1), (16 * 31337, 3)):
+        b = {"chain": [relabel(c, lambda x: mul * x + off) for c in a["chain"]]}
+        got = local_seqchain(b)
+        if got != ref:
+            return f"sequence numbers of an inheritance chain depend on id(): {json.dumps(ref)[:160]} vs {json.dumps(got)[:160]}"
+    return None
 
 
 def check_process_order(a):
@@ -1622,10 +1658,10 @@ ORACLES = [
     Oracle("clusters-order-independent", gen_clusters, check_variants(local_clusters), from_ops=("gen.clusters",)),
     Oracle("layout-order-independent", gen_layout, check_variants(local_layout), from_ops=("gen.layout",)),
     Oracle("resolver-order-independent", gen_resolver, check_variants(local_resolver), from_ops=("gen.resolver",)),
-    Oracle("sort-types-set-order-independent", gen_sort_types, check_sort_types, covered=covered_sort_types,
+    Oracle("sort-types-set-order-independent", gen_sort_types, check_sort_types,
            from_ops=("gen.sort_types",)),
-    Oracle("sequence-numbers-id-independent", gen_oracle_seqnum, check_seqnum, covered=covered_seqnum,
-           from_ops=("gen.seqnum",)),
+    Oracle("sequence-numbers-id-independent", gen_oracle_seqnum, check_seqnum, from_ops=("gen.seqnum",)),
+    Oracle("chain-sequence-numbers-id-independent", gen_seqchain, check_seqchain, from_ops=("gen.seqchain",)),
     Oracle("source-order-listing-independent", gen_process_order, check_process_order, from_ops=("gen.process_order",)),
     Oracle("config-routes-agree", gen_config_routes, check_config_routes, from_ops=("gen.config_routes",)),
     Oracle("paths-follow-cwd", gen_cwd, check_cwd),
@@ -1637,16 +1673,6 @@ ORACLES = [
 # ----------------------------------------------------------------------------
 # FINDINGS — replay of known defects on the real code
 # ----------------------------------------------------------------------------
-def finding_seq_leak():
-    r1 = S.generate_full("api", SEQLEAK_SCHEMA, SEQLEAK_OPTIONS, None)
-    if "files" not in r1:
-        return False, f"generation failed: {r1.get('err')} {r1.get('msg')}"
-    nums = [int(x) for f in r1["files"].values() for x in re.findall(r'"sequence": (\d+)', f)]
-    big = [n for n in nums if n > 10**6]
-    msg = check_e2e({"schemas": SEQLEAK_SCHEMA, "options": SEQLEAK_OPTIONS})
-    return bool(big), f"sequence numbers in generated code: {nums}; {msg or 'runs agree'}"
-
-
 def finding_header_timestamp():
     import datetime
 
@@ -1665,35 +1691,6 @@ def finding_header_timestamp():
     return close, f"header embeds the wall clock: {m.group(1)}"
 
 
-def finding_sort_types_tie():
-    from xsdata.codegen.models import Attr, AttrType
-    from xsdata.formats.dataclass.filters import Filters
-    from xsdata.models.config import GeneratorConfig
-    from xsdata.models.enums import DataType, Tag
-
-    attr = Attr(
-        tag=Tag.ATTRIBUTE,
-        name="x",
-        default="YWJj",
-        types=[
-            AttrType(qname=str(DataType.BASE64_BINARY), native=True),
-            AttrType(qname=str(DataType.ANY_SIMPLE_TYPE), native=True),
-        ],
-    )
-    attr.restrictions.format = "base64"
-    f = Filters(GeneratorConfig())
-    seen = {}
-    try:
-        for seed in range(1, 9):
-            S.set_shuffle(seed)
-            seen.setdefault(f.field_default_value(attr), []).append([t.__name__ for t in attr.native_types])
-    finally:
-        S.set_shuffle(None)
-    return len(seen) > 1, f"default literal by set order of native_types: { {k: v[0] for k, v in seen.items()} }"
-
-
 FINDINGS = {
-    "C12-F1": finding_seq_leak,
     "C12-F3": finding_header_timestamp,
-    "C12-F5": finding_sort_types_tie,
 }
